@@ -1000,6 +1000,29 @@ class Interp:
         invariant as v._i together with v._seq)."""
         c = ctx()
         st: Dict[str, Any] = {"_i": 0, "_seq": it}
+        if isinstance(it, SymRange):
+            # range(start, stop, step) with step > 0: element _i is start + _i*step and exists iff it is
+            # < stop; stated without the division that a count would need
+            if not self.truth(it.step > 0):
+                raise Unsupported("symbolic range with a non-positive step")
+
+            def havoc_r():
+                st["_i"] = core.fresh_int(c.fresh_name("_i"), lo=0)
+                # every earlier element existed
+                c.assume(as_bool_term(bor(st["_i"] == 0, it.at(st["_i"] - 1) < it.stop)))
+
+            def nxt_r():
+                x = it.at(st["_i"])
+                if self.truth(x < it.stop):
+                    self.assign(s.target, x, env, globs)
+                    return True
+                return False
+
+            def advance_r():
+                st["_i"] = st["_i"] + 1
+
+            st["havoc"], st["next"], st["advance"] = havoc_r, nxt_r, advance_r
+            return self.inductive_loop(s, env, globs, key, spec, kind="for", iter_state=st)
         if isinstance(it, SymIter):
             n = it.count()
         else:
@@ -1189,6 +1212,8 @@ class Interp:
                                 raise AttributeError(name)
                             if type(d).__name__ in ("_Attribute", "Attribute"):
                                 raise AttributeError(name)
+                            if type(d).__name__ == "Logger" and type(d).__module__.startswith("twisted.logger"):
+                                return d  # class-level Logger descriptor: logging calls are call-outs / no-ops
                             if callable(d) and hasattr(d, "__wrapped__"):
                                 return BoundMethod(d, o, name, k)
                             raise Unsupported("descriptor %s.%s of type %s" % (k.__name__, name, type(d).__name__))
